@@ -3,3 +3,4 @@ CONSTANTS
   LEVEL = 2
 INVARIANT Inv
 CHECK_DEADLOCK FALSE
+PROPERTY SlowPeerKept
